@@ -514,7 +514,7 @@ namespace ip {
 				p.overhead = 40;
 				p.hops = hops;
 				p.seq_nr = m_next_outgoing_seq++;
-				p.drop_fun = std::bind(&tcp::socket::packet_dropped, this, _1);
+				p.drop_fun = make_drop_fun();
 
 				send_packet(std::move(p));
 				ptr += packet_size;
@@ -750,6 +750,20 @@ namespace ip {
 		}
 
 		forward_packet(std::move(p));
+	}
+
+	aux::function<void(aux::packet)> tcp::socket::make_drop_fun()
+	{
+		// the notification is routed through the forwarder, which is detached
+		// when this socket is closed or destroyed and follows it when it is
+		// moved: a packet of an earlier connection can never reach a later one
+		std::shared_ptr<aux::sink_forwarder> fwd = m_forwarder;
+		return [fwd](aux::packet pkt)
+		{
+			sink* s = fwd->destination();
+			if (s == nullptr) return;
+			static_cast<tcp::socket*>(s)->packet_dropped(std::move(pkt));
+		};
 	}
 
 	void tcp::socket::packet_dropped(aux::packet p)
